@@ -18,6 +18,12 @@
     (`qfile_load`; the harness wraps `open` so that the library sees exactly the files of the
     operation line); the `@INCLUDE` directive lines are spliced one by one, at most
     `_MAX_INCLUDES` of them (current source, after the `fix:` commits).
+
+  * NO AMBIENT STATE: the model has no `errno` that exists before the call and no notion of the kind of
+    file behind a path (regular file, pipe, FIFO): results are functions of the arguments and the bytes
+    delivered. The harness plants a different errno value (0, ENOMEM, ERANGE, EINTR, ENOENT, EINVAL,
+    EAGAIN, ENOBUFS) before every library call and feeds documents through pipes as well as files; a
+    result that depends on either is a correspondence break (a hang: the per-call watchdog).
 -/
 import QlibcModel.Base.Fault
 import QlibcModel.Str.Spec
